@@ -488,6 +488,7 @@ func (r *run) opRestart() {
 		r.step("  journal %s model %s %s", ti, v, why)
 	}
 	r.m.flagLimits()
+	r.poolStart = time.Now()
 	r.pool = tx_pool.NewTxPool(r.cfg, chainCfg, r.chain)
 	synctest.Wait()
 	r.optLocal = true
